@@ -192,3 +192,23 @@ Theorem C01_ligero_value :
     ip (rowcomb rows n_cols b) a = eval coeffs z.
 Proof. exact @ligero_value. Qed.
 Print Assumptions C01_ligero_value.
+
+(* multilinear Ligero: the same completeness with the two tensor vectors of the point, and the compared value is the
+   multilinear extension of the committed evaluations at the point *)
+From PC Require Import Schemes.MLPC.
+Theorem C01_ligero_ml_complete :
+  forall (FO : FieldOps) (FL : FieldLaws FO) wf n_cols n_ext omega rows point r idx pf a b,
+    Forall (fun r => (length r <= n_cols)%nat) rows ->
+    tensor_ml point n_cols = Ok (a, b) ->
+    l_open_ml wf n_cols n_ext omega rows point r idx = Ok pf ->
+    l_check_ml wf n_cols n_ext omega (map (encode omega n_ext) rows) point (ip (lf_v pf) a) pf r idx = Ok true.
+Proof. exact @ligero_ml_complete. Qed.
+Print Assumptions C01_ligero_ml_complete.
+
+Theorem C01_ligero_ml_value :
+  forall (FO : FieldOps) (FL : FieldLaws FO) n_cols (rows : list (list F)) (lpt rpt : list F),
+    Forall (fun r => length r = n_cols) rows -> n_cols = (2 ^ length lpt)%nat ->
+    length (concat rows) = (2 ^ length (lpt ++ rpt))%nat ->
+    ip (rowcomb rows n_cols (tensor_vec rpt)) (tensor_vec lpt) = mle_eval (concat rows) (lpt ++ rpt).
+Proof. exact @ligero_ml_value_mle. Qed.
+Print Assumptions C01_ligero_ml_value.
